@@ -167,6 +167,11 @@ pub(crate) struct IoLoop {
     frame_buffer: FrameBuffer,
     inner: Inner,
 
+    // Frames that arrived right behind the server's OpenOk (in the same read), i.e., after
+    // the handshake was complete but before the main loop took over. They belong to the
+    // established connection and are handled first thing there.
+    early_frames: Vec<AMQPFrame>,
+
     // Bound for buffered outgoing writes. If we have more than this much data enqueued,
     // we will stop polling non-0 channels' requests for us to send more data.
     buffered_writes_high_water: usize,
@@ -190,6 +195,7 @@ impl IoLoop {
             poll,
             frame_buffer: FrameBuffer::new(),
             inner: Inner::new(heartbeats, tuning.mem_channel_bound),
+            early_frames: Vec::new(),
             buffered_writes_high_water: tuning.buffered_writes_high_water,
             buffered_writes_low_water: tuning.buffered_writes_low_water,
             connection_timeout: None,
@@ -406,10 +412,17 @@ impl IoLoop {
                     self.inner.write_to_stream(stream)?;
                 }
                 if event.readiness().is_readable() {
+                    let early_frames = &mut self.early_frames;
                     self.inner.read_from_stream(
                         stream,
                         &mut self.frame_buffer,
-                        |inner, frame| state.process(inner, frame),
+                        |inner, frame| match state {
+                            HandshakeState::Done(_, _) => {
+                                early_frames.push(frame);
+                                Ok(())
+                            }
+                            _ => state.process(inner, frame),
+                        },
                     )?;
                 }
             }
@@ -444,6 +457,9 @@ impl IoLoop {
         ch0_slot: Channel0Slot,
     ) -> Result<()> {
         let mut state = ConnectionState::Steady(ch0_slot);
+        for frame in std::mem::take(&mut self.early_frames) {
+            state.process(&mut self.inner, frame)?;
+        }
         self.run_io_loop(
             stream,
             &mut state,
